@@ -182,6 +182,10 @@ impl Universe {
             (0..40).map(|i| 65200 + i).collect(),
             (0..256).map(|i| 70000 + i).collect(),
             (0..300).map(|i| 80000 + 3 * i).collect(),
+            // a source may list providers in any order and more than once;
+            // what the client hands on is what the source reported
+            vec![65103, 65101, 65102],
+            vec![65100, 65100, 4_200_000_000, 0],
         ];
         Universe { keys, provider_sets, big }
     }
